@@ -245,6 +245,28 @@ def check_unit(ses, unit, analyses, **kw):
     return n
 
 
+def check_units(ses, units, analyses, **kw):
+    """check_unit for several units in one worker pool"""
+    from pyvc.harness import explore_parallel_multi
+
+    payloads = []
+    for unit in units:
+        fns, decls = _functions(unit)
+        for f in fns:
+            ses.under_contract(f)
+        for q, obj, file in decls:
+            ses.under_contract_object(q, obj, file=file)
+        payload = {"unit": unit, "prop": ses.prop, "tier": ses.tier, "seed": ses.seed, "analyses": list(analyses)}
+        payload.update(kw)
+        payloads.append(payload)
+    counts = explore_parallel_multi(ses, "props.records", "path_task", payloads)
+    for unit, n in counts.items():
+        ses.extra_coverage[f"paths[{unit}]"] = n
+        if n == 0:
+            ses.undecided(f"{ses.prop}/{unit}/paths", "no path explored")
+    return counts
+
+
 def generate_table(unit):
     gen = tempfile.mkdtemp(prefix="gen_", dir=os.environ.get("TMPDIR", "/tmp"))
     ses = Session("GEN")
